@@ -56,11 +56,19 @@ def strings_as_words(python_object):
     ):
         return [tokenizer.word(value="Auto")]
     words = []
+    after_multi_line = False
     for value in python_object:
-        if is_standard_identifier(value) and value.lower() not in ("none", "auto"):
+        # an unquoted word cannot follow a quoted word that spans lines
+        if (
+            is_standard_identifier(value)
+            and value.lower() not in ("none", "auto")
+            and not after_multi_line
+        ):
             words.append(tokenizer.word(value=value))
         else:
             words.append(tokenizer.word(value=value, quote_token='"'))
+        if "\n" in value:
+            after_multi_line = True
     return words
 
 
